@@ -462,7 +462,11 @@ func solveOne(o *Obl, timeoutS int) Result {
 	var total time.Duration
 	race := solvers
 	if !strings.Contains(script, "(forall ") && !strings.Contains(script, "(exists ") {
-		res, rest, d := runSolver(solvers[0], script, timeoutS)
+		first := timeoutS
+		if first > 6 {
+			first = 6 // a short first attempt; what z3-new cannot do quickly is raced on all back ends with the full timeout
+		}
+		res, rest, d := runSolver(solvers[0], script, first)
 		total += d
 		r.Res, r.Backend, r.Raw = res, solvers[0].name, rest
 		if res == "sat" || res == "unsat" || res == "error" {
@@ -472,7 +476,9 @@ func solveOne(o *Obl, timeoutS int) Result {
 			r.Dur = total
 			return r
 		}
-		race = solvers[1:]
+		if first == timeoutS {
+			race = solvers[1:]
+		}
 	}
 	type ans struct {
 		res, rest, name string
